@@ -25,6 +25,18 @@ CHECKS = [
   "note": COMMON_NOTE + " Rounding not decided (reals). That a finite sum of rectangle areas is the integral of the step function is the "
           "definition used. Observations/weights/timestamps are plain finite int/float (not Quantity instances).",
   "technique": "deductive verification: representation invariant + ghost weighted sums, obligations discharged by z3 (exact field-identity step + QF_NRA)"},
+ {"property_id": "C08",
+  "text": "EventProducer.__init__/add_listener/remove_listener/remove_all_listeners (4 forms, loop invariant)/has_listeners/fire_event/"
+          "fire_timed_event/fire/fire_timed and the Event/TimedEvent constructors are verified against contracts over the abstract view "
+          "subs: EventType -> sequence of listeners (whole-map postconditions, duplicate-free non-empty lists as representation invariant). "
+          "Delivery: loop invariant with a ghost sequence of notified receivers = prefix of the snapshot taken at the moment of firing, "
+          "loop postcondition = the whole snapshot in order; notify is an abstract callback that may re-enter the producer arbitrarily "
+          "(heap havoc). Metadata validation: normal return of the constructor implies the declared-keys/declared-types rule.",
+  "design_ref": "DESIGN.md section 6 C08",
+  "note": COMMON_NOTE + " Assumed sequence lemmas (axiom set 'seqref': nodup/append/remove-first on Seq(ref)); listeners and event types "
+          "compare by identity; listeners use only the public API; 'exactly the declared keys' from len-equality + inclusion is the "
+          "finite-set pigeonhole step (not re-proved by SMT). Sequence obligations left open by z3 are discharged by cvc5.",
+  "technique": "deductive verification: abstract map/sequence view, snapshot loop invariant with ghost delivery sequence, callback contract; z3 + cvc5"},
 ]
 _claimed = {c["property_id"] for c in CHECKS}
 NOT_APPLICABLE = [
